@@ -43,6 +43,7 @@ import Restful.Lemmas.StateShape
 import Restful.Lemmas.TieImpPrefix
 import Restful.Lemmas.TieImpRegistry
 import Restful.Lemmas.TieImpBuild
+import Restful.Lemmas.TieImpAdd
 namespace Restful
 namespace Props
 open Registry
@@ -377,3 +378,4 @@ end Restful
 -- also: Restful.TieImp.build_route
 -- also: Restful.TieImp.copy_defaults
 -- also: Restful.TieImp.build_route_no_function
+-- also: Restful.TieImp.container_add
